@@ -1041,9 +1041,10 @@ impl<'a> Gen<'a> {
 
     /// Back-pressure episode: a handful of commands whose answers are large (the answer echoes the
     /// request id, padded to 0.5..1.6 MB: around and above half of the default 2 MB
-    /// max_command_buffer_size), written back-to-back while the harness does not read the channel,
+    /// max_command_buffer_size), written back-to-back while the harness does not read the channel (on small-buffer cells the
+    /// same with 20..100 kB ids against 64 kB / 128 kB buffers),
     /// then drained slowly. The worker's channel must hold or re-queue every answer.
-    pub fn backpressure_episode(&mut self) {
+    pub fn backpressure_episode(&mut self, small_buffers: bool) {
         let tag = "channel:large-answers-while-main-does-not-read";
         let k = self.rng.urange(3, 7);
         let first = self.out.len();
@@ -1062,7 +1063,13 @@ impl<'a> Gen<'a> {
         self.patterns.insert(tag);
         for i in first..first + k {
             let big = self.rng.chance(3, 4);
-            self.out[i].pad = if big { self.rng.urange(1_050_000, 1_600_000) } else { self.rng.urange(300_000, 900_000) };
+            // default cells: 1 MB / 2 MB command buffers; small-buffer cells: 64 kB / 128 kB
+            self.out[i].pad = match (small_buffers, big) {
+                (false, true) => self.rng.urange(1_050_000, 1_600_000),
+                (false, false) => self.rng.urange(300_000, 900_000),
+                (true, true) => self.rng.urange(68_000, 100_000),
+                (true, false) => self.rng.urange(20_000, 55_000),
+            };
             self.out[i].flush = i + 1 == first + k;
         }
     }
@@ -1109,6 +1116,8 @@ pub struct Plan {
     /// dump the worker state after every mutating command (C07 level iii)
     pub c07: bool,
     pub inflight: bool,
+    /// the cell's command channel uses 64 kB / 128 kB buffers instead of 1 MB / 2 MB
+    pub small_buffers: bool,
     pub closing: Closing,
     pub cmds: Vec<Cmd>,
     pub patterns: Vec<&'static str>,
@@ -1128,6 +1137,7 @@ pub fn generate(rng: &mut Rng, cell: Cell, max_len: usize) -> Plan {
     let c07 = !burst && rng.chance(1, 2);
     let inflight = !raw && rng.chance(2, 5);
     let backpressure = rng.chance(1, 12);
+    let small_buffers = backpressure && rng.bool();
     let closing = match rng.below(10) {
         0 => Closing::HardStop,
         1..=2 => Closing::ReturnThenSoftStop,
@@ -1141,12 +1151,12 @@ pub fn generate(rng: &mut Rng, cell: Cell, max_len: usize) -> Plan {
         }
         g.out.truncate(n.max(10));
         if backpressure {
-            g.backpressure_episode();
+            g.backpressure_episode(small_buffers);
             for _ in 0..g.rng.urange(0, 5) {
                 g.gen_worker_level_cmd();
             }
             if g.rng.bool() {
-                g.backpressure_episode();
+                g.backpressure_episode(small_buffers);
             }
         }
         if inflight {
@@ -1160,14 +1170,14 @@ pub fn generate(rng: &mut Rng, cell: Cell, max_len: usize) -> Plan {
             c.flush = rng.chance(1, 8);
         }
     }
-    Plan { cell, raw, burst, traffic, c07, inflight, closing, cmds, patterns }
+    Plan { cell, raw, burst, traffic, c07, inflight, small_buffers, closing, cmds, patterns }
 }
 
 pub fn plan_json(p: &Plan) -> Value {
     json!({
         "mode": if p.raw { "raw" } else { "master-filtered" },
         "send": if p.burst { "bursts" } else { "one-at-a-time" },
-        "traffic": p.traffic, "c07_dumps": p.c07, "inflight_request_at_soft_stop": p.inflight,
+        "traffic": p.traffic, "c07_dumps": p.c07, "command_buffers": if p.small_buffers { "64k/128k" } else { "1M/2M" }, "inflight_request_at_soft_stop": p.inflight,
         "closing": format!("{:?}", p.closing),
         "commands": p.cmds.iter().map(|c| {
             let d = describe(&c.rt);
